@@ -258,6 +258,21 @@ def run(tier, seed):
                                  "--cli-every", "4"], timeout=2400)
     if p.returncode != 0:
         raise vlib.Inconclusive("recorder failed: " + p.stderr[-2000:])
+    # a store whose key listing contradicts its own lookups (recorder event "storefault") is reported as such; the
+    # specification judges the other repositories
+    faults = []
+    with open(trace) as f:
+        lines = f.readlines()
+    with open(trace, "w") as f:
+        for ln in lines:
+            if '"op":"storefault"' in ln or '"op": "storefault"' in ln:
+                faults.append(json.loads(ln))
+            else:
+                f.write(ln)
+    for ev in faults[:5]:
+        v.violation("prune/store/listing-contradicts-lookups/%s" % ev.get("mode"),
+                    dict(engine=ENGINE, mode="storefault", event=ev,
+                         what="the on-disk object store lists keys it does not hold / twice: prune works from these listings"))
     cfg = "TracePrune.cfg"
     n_traces, n_events, rejections, devs, last, traces = validate(trace, cfg)
     for r in rejections:
@@ -331,6 +346,17 @@ def replay(path):
     if doc.get("engine") == "system2":
         from props import system2_common
         return system2_common.replay(PROP, path, doc)
+    if doc.get("mode") == "storefault":
+        # the recorder builds the same repositories from the same seed
+        t = os.path.join(vlib.sub("traces"), "replay.ndjson")
+        p = vlib.run_record(ENGINE, ["--seed", str(doc.get("seed", 1)), "--n", "60", "--out", t, "--dir", vlib.sub("prunerepos"),
+                                     "--cli-every", "4"], timeout=2400)
+        if p.returncode != 0:
+            raise vlib.Inconclusive("recorder failed: " + p.stderr[-2000:])
+        if any('"op":"storefault"' in ln or '"op": "storefault"' in ln for ln in open(t)):
+            print("VIOLATION property=%s replay=%s" % (PROP, path))
+            return 1
+        return 0
     if doc.get("mode") == "trace":
         ops = os.path.join(vlib.sub("traces"), "ops.ndjson")
         with open(ops, "w") as f:
